@@ -49,7 +49,16 @@ def check(chk, sc, out):
         if not sc["icpt"]:
             kw["intercept"] = False
         v = ir.RedVAR(ynames, **kw)
-        odb = v.estimate(db, span, **ekw)
+        tdb = None
+        if len(_plain(sc["data"]).__repr__()) % 2 == 0:
+            # history: the results are written into a databox that already holds the residuals of an EARLIER estimate of another
+            # specification (intercept toggled); what comes back must be this estimate's
+            try:
+                tdb = ir.RedVAR(ynames, **dict(kw, intercept=not sc["icpt"])).estimate(db, span)
+                desc += " (results merged into the output databox of an earlier estimate with intercept=%s)" % (not sc["icpt"])
+            except Exception:
+                tdb = None
+        odb = v.estimate(db, span, **(dict(ekw, target_db=tdb) if tdb is not None else ekw))
         sysm = v.get_system_matrices()
     except Exception as ex:
         if not out["ok"]:        # singular normal equations: no least-squares solution to compare with
